@@ -1038,9 +1038,8 @@ class Engine:
             if t is MapObj:
                 if v.arbitrary:
                     raise Unsupported('len of arbitrary map')
-                if v.sym:
-                    raise Unsupported('len of map with symbolic keys')
-                return len(v.d)
+                # map_update forks on equality with every existing key, so on this path the keys are pairwise distinct
+                return len(v.d) + len(v.sym)
             if v is None:
                 return 0
             if t is ChanObj:
@@ -1549,7 +1548,17 @@ class Engine:
                 self.map_touch(m, 'd', h, m.d[h])
                 del m.d[h]
             return
-        raise Unsupported('delete with symbolic key')
+        # symbolic key (or a map holding symbolic keys): fork on equality with each existing key
+        for hk, (ek, ev) in list(m.d.items()):
+            if self.branch(self.val_eq(ek, k)):
+                self.map_touch(m, 'd', hk, m.d[hk])
+                del m.d[hk]
+                return
+        for idx, (ek, ev) in enumerate(m.sym):
+            if self.branch(self.val_eq(ek, k)):
+                self.map_touch(m, 'sym', None, list(m.sym))
+                m.sym = m.sym[:idx] + m.sym[idx + 1:]
+                return
 
     # arbitrary pre-state maps (C16): fresh (value, ok) per distinct key, remembered
     def arb_map_lookup(self, m, k):
